@@ -272,5 +272,108 @@ func builtinPrograms() []*Program {
 			),
 		},
 	})
+
+	// 4. hand-written proto with custom options whose bodies have several populated fields
+	// (dynamic messages for the printer), and a service with an http rule.
+	out = append(out, &Program{
+		Name:     "builtin/proto_options",
+		Packages: []string{"opt.v1"},
+		Files: map[string]string{
+			"opt/v1/types.j5s": j5s(
+				"package opt.v1",
+				"",
+				"object Widget {",
+				"  field widgetId ! key:id62",
+				"  field raw object:Raw",
+				"}",
+			),
+			"opt/v1/raw.proto": strings.Join([]string{
+				"syntax = \"proto3\";",
+				"package opt.v1;",
+				"import \"buf/validate/validate.proto\";",
+				"import \"google/api/annotations.proto\";",
+				"message Raw {",
+				"  string name = 1 [(buf.validate.field) = {required: true, string: {min_len: 1, max_len: 30, pattern: \"^[a-z]+$\"}}];",
+				"  int32 count = 2 [(buf.validate.field) = {required: true, int32: {gte: 1, lte: 99}}];",
+				"  repeated string tags = 3 [(buf.validate.field).repeated = {min_items: 1, max_items: 5, unique: true}];",
+				"}",
+				"message GetRawRequest {",
+				"  string name = 1;",
+				"}",
+				"service RawService {",
+				"  rpc GetRaw(GetRawRequest) returns (Raw) {",
+				"    option (google.api.http) = {get: \"/opt/v1/raw/{name}\" additional_bindings: {post: \"/opt/v1/raw\" body: \"*\"}};",
+				"  }",
+				"}",
+			}, "\n"),
+		},
+	})
+
+	// 5. short names that exist twice in a package: nested in one file, top level in another -
+	// in a dependency package (two files) and in a local hand-written proto. Legal, and resolved the
+	// same way whatever the listing order.
+	st := func(n string, num int32) *descriptorpb.FieldDescriptorProto {
+		return &descriptorpb.FieldDescriptorProto{Name: proto.String(n), Number: proto.Int32(num), Type: descriptorpb.FieldDescriptorProto_TYPE_STRING.Enum(),
+			Label: descriptorpb.FieldDescriptorProto_LABEL_OPTIONAL.Enum(), JsonName: proto.String(n)}
+	}
+	enumOf := func(name, prefix string) *descriptorpb.EnumDescriptorProto {
+		return &descriptorpb.EnumDescriptorProto{Name: proto.String(name), Value: []*descriptorpb.EnumValueDescriptorProto{
+			{Name: proto.String(prefix + "_UNSPECIFIED"), Number: proto.Int32(0)},
+			{Name: proto.String(prefix + "_ACTIVE"), Number: proto.Int32(1)},
+			{Name: proto.String(prefix + "_DONE"), Number: proto.Int32(2)},
+		}}
+	}
+	jobs := &descriptorpb.FileDescriptorProto{
+		Name: proto.String("clash/v1/jobs.proto"), Syntax: proto.String("proto3"), Package: proto.String("clash.v1"),
+		MessageType: []*descriptorpb.DescriptorProto{{
+			Name:       proto.String("Job"),
+			Field:      []*descriptorpb.FieldDescriptorProto{st("job_id", 1), {Name: proto.String("status"), Number: proto.Int32(2), Type: descriptorpb.FieldDescriptorProto_TYPE_ENUM.Enum(), TypeName: proto.String(".clash.v1.Job.Status"), Label: descriptorpb.FieldDescriptorProto_LABEL_OPTIONAL.Enum(), JsonName: proto.String("status")}},
+			EnumType:   []*descriptorpb.EnumDescriptorProto{enumOf("Status", "JOB_STATUS")},
+			NestedType: []*descriptorpb.DescriptorProto{{Name: proto.String("Detail"), Field: []*descriptorpb.FieldDescriptorProto{st("note", 1)}}},
+		}},
+	}
+	kinds := &descriptorpb.FileDescriptorProto{
+		Name: proto.String("clash/v1/kinds.proto"), Syntax: proto.String("proto3"), Package: proto.String("clash.v1"),
+		EnumType:    []*descriptorpb.EnumDescriptorProto{enumOf("Status", "STATUS")},
+		MessageType: []*descriptorpb.DescriptorProto{{Name: proto.String("Detail"), Field: []*descriptorpb.FieldDescriptorProto{st("text", 1), st("more", 2)}}},
+	}
+	out = append(out, &Program{
+		Name:     "builtin/name_clash",
+		Packages: []string{"use.v1"},
+		Deps:     []*descriptorpb.FileDescriptorProto{jobs, kinds},
+		Files: map[string]string{
+			"use/v1/use.j5s": j5s(
+				"package use.v1",
+				"import clash.v1",
+				"",
+				"object User {",
+				"  field userId ! key:id62",
+				"  field status enum:clash.v1.Status {",
+				"    rules.in = [\"ACTIVE\", \"DONE\"]",
+				"  }",
+				"  field detail object:clash.v1.Detail",
+				"  field job object:clash.v1.Job",
+				"  field local object:Item",
+				"  field marker enum:Marker",
+				"}",
+			),
+			"use/v1/item.proto": strings.Join([]string{
+				"syntax = \"proto3\";",
+				"package use.v1;",
+				"message Box {",
+				"  message Item { string inner = 1; }",
+				"  enum Marker { MARKER_UNSPECIFIED = 0; MARKER_IN = 1; }",
+				"  Item item = 1;",
+				"  Marker marker = 2;",
+				"}",
+			}, "\n"),
+			"use/v1/zitem.proto": strings.Join([]string{
+				"syntax = \"proto3\";",
+				"package use.v1;",
+				"message Item { string outer = 1; string second = 2; }",
+				"enum Marker { MARKER_UNSPECIFIED = 0; MARKER_A = 1; MARKER_B = 2; }",
+			}, "\n"),
+		},
+	})
 	return out
 }
